@@ -35,6 +35,8 @@ class Opts(object):
         self.nested_def = False
         self.except_as = True
         self.jump_in_handler_finally = False   # known-finding shape (C05), separate stream
+        self.finally_prob = 0.5
+        self.rich_finally = False  # compound statements (loops with their own break/continue, nested try) in finally bodies
         self.aug = True
         self.tuple_assign = True
         self.delete = False
@@ -160,7 +162,10 @@ class Gen(object):
             self.emit(ind, 'm.append(%s)' % self.texpr(defined))
             return defined, True
         if c == 'global':
-            self.emit(ind, 'G = %s' % self.texpr(defined))
+            if r.random() < 0.5:
+                self.emit(ind, 'G = T(%d, G)' % self.key())       # read-modify-write of the global
+            else:
+                self.emit(ind, 'G = %s' % self.texpr(defined))
             return defined, True
         if c == 'assign':
             v = r.choice(self.vars)
@@ -253,7 +258,7 @@ class Gen(object):
             self.emit(ind, '%s = %s(%s)' % (r.choice(self.vars), name, self.texpr(defined)))
             return defined, True
         if c == 'try':
-            has_fin = o.finally_ and r.random() < 0.5
+            has_fin = o.finally_ and r.random() < o.finally_prob
             nh = r.randint(0 if has_fin else 1, 2)
             self.emit(ind, 'try:')
             self.block(ind + 1, defined, depth + 1, in_loop, ihf)
@@ -280,7 +285,8 @@ class Gen(object):
                 # no jumps directly in a finally body (they swallow exceptions; out of guarantee)
                 save = o.raise_
                 o.raise_ = False
-                self.block(ind + 1, defined, o.max_depth, False, True)
+                self.block(ind + 1, defined, (depth + 1) if o.rich_finally else o.max_depth,
+                           in_loop and o.rich_finally and o.jump_in_handler_finally, True)
                 o.raise_ = save
             return defined, True
         raise AssertionError(c)
